@@ -361,6 +361,19 @@ class RegionRun(object):
                 self.dstate = 2
                 return 0 if not self.done[0] else None
             return None
+        if d["mode"] == "interpose_after_store":
+            # worker 0 runs iteration A up to just after a store to the cell; worker 1 then runs iteration B
+            # through its store of the cell; worker 0 resumes and reads what B left there (shared scratch)
+            if self.dstate == 0 and w == 0 and hit and kind in ("store_done", "aug_store") and self.cur_iter[0] == d["a"]:
+                self.dstate = 1
+                return 1 if not self.done[1] else None
+            if self.dstate == 1 and w == 1 and hit and kind in ("store_done", "aug_store") and self.cur_iter[1] == d["b"]:
+                self.dstate = 2
+                return 0 if not self.done[0] else None
+            if self.dstate == 1 and w == 1 and kind == "iter_end" and self.cur_iter[1] is None and not self.lists[1]:
+                self.dstate = 2
+                return 0 if not self.done[0] else None
+            return None
         if d["mode"] == "reorder":
             # worker 1 (holding B) runs completely before worker 0 (holding A) starts
             return None
